@@ -642,8 +642,13 @@ def check_C02(ctx, unit):
             for c in cs:
                 g = False
                 for cond, truth in flow.facts_at(f, c.id):
-                    p = path(cond.strip())
-                    if p and p[-1] == "head_slb" and truth is False:
+                    c0, t0 = cond.strip(), truth
+                    while c0.kind == "UnaryOperator" and c0.op == "!":
+                        c0, t0 = c0.children[0].strip(), not t0
+                    p = path(c0)
+                    if not (p and p[-1] == "head_slb"):
+                        p = path(std_unwrap(RA.resolve_at(f, c0)))      # (the head read into a local that is tested)
+                    if p and p[-1] == "head_slb" and t0 is False:
                         g = True
                 ok = ok and g
             # slab becomes full
@@ -730,7 +735,7 @@ def check_C02(ctx, unit):
         for f in bn.get("free_in_slab_", []):
             ins = [n for n in f.events() if n.is_call() and n.callee and n.callee["n"] == "insert" and n.kind == "CXXMemberCallExpr"
                    and path(n.child("obj")) and path(n.child("obj"))[-1] == "partial_tree"]
-            push = [n for n in f.events() if write_of(n) and write_of(n)[0] and write_of(n)[0][-1] == "available" and n.kind == "BinaryOperator"]
+            push = [n for n in f.events() if write_of(n) and write_of(n)[0] and write_of(n)[0][-1] == "available" and n.kind in ("BinaryOperator", "CallExpr")]
             if not ins or not push:
                 raise AnalysisBroken("anchor vanished: free-list push / partial-tree insert in %s" % f.qn)
             problems = []
@@ -932,7 +937,19 @@ def check_C03(ctx, unit):
                 if set(stores) != {"sb_base", "sb_reservation"}:
                     problems.append("frame fields written: %s" % sorted(stores))
                 else:
-                    if basev is not None and place_of(stores["sb_base"], alias) != basev:
+                    def holds_map_result(v):
+                        if place_of(v, alias) == basev:
+                            return True
+                        # a local that a folded helper's returns assign the map result or the failure constant 0
+                        # (`return {n, 0, 0};` / `return {n, sb_base, aligned};`): where the frame is built it is the result
+                        vs = std_unwrap(v)
+                        if vs.kind != "DeclRefExpr":
+                            return False
+                        vals = [std_unwrap(x.children[1]) for x in f.all_nodes() if x.kind == "BinaryOperator" and x.op == "="
+                                and std_unwrap(x.children[0]).kind == "DeclRefExpr" and std_unwrap(x.children[0]).d.get("d") == vs.d.get("d")]
+                        nonconst = [y for y in vals if y.cv() is None]
+                        return bool(nonconst) and all(place_of(y, alias) == basev for y in nonconst) and all(y.cv() == 0 for y in vals if y.cv() is not None)
+                    if basev is not None and not holds_map_result(stores["sb_base"]):
                         problems.append("sb_base stores %s, not the result of map" % canon(stores["sb_base"]))
                     rv = stores["sb_reservation"]
                     rplace = place_of(rv, alias)
@@ -1204,7 +1221,7 @@ def _res(f, x, depth=0):
     """Resolve an expression to what it denotes: through once-initialised locals, parameters of folded helpers, helper
     results and casts."""
     for _ in range(16):
-        y = std_unwrap(RA.resolve_local(f, std_unwrap(x)))
+        y = std_unwrap(RA.resolve_at(f, std_unwrap(x)))
         hops = 0
         while y.kind in ("CStyleCastExpr", "CXXStaticCastExpr", "CXXReinterpretCastExpr", "ImplicitCastExpr", "ParenExpr",
                          "CXXFunctionalCastExpr") and y.children and hops < 8:
@@ -1315,3 +1332,87 @@ def check_bucket_of_slab(ctx, unit, rule="E.bucket-of-slab"):
 def _is_nullish(v):
     v = std_unwrap(v)
     return v.kind in ("CXXNullPtrLiteralExpr", "GNUNullExpr") or (v.cv() == 0)
+
+
+def check_downcast_guarded(ctx, unit, rule="N.downcast-guarded"):
+    """A frame found by the address look-up is a slab frame or a large frame; which one is recorded in its `type` field and
+    nowhere else -- not in the size the caller states (a large block may have been shrunk in place), not in the path the
+    block was allocated on.  Every conversion of a `frame *` into a `slab_frame *` is therefore under the decision
+    `type == slab` on that very frame."""
+    ctx.rule(rule, "slab_pool: a frame pointer is converted to slab_frame * only where `type == frame_type::slab` was decided for "
+             "that frame on the path (the caller's size or the allocation path never stand in for the header)", 4)
+    n_total = 0
+    for inst in pool_instantiations(unit):
+        fns = pool_fns(unit, inst)
+        bad, n = [], 0
+        for f in fns:
+            for x in f.all_nodes():
+                if x.kind not in ("CXXStaticCastExpr", "CStyleCastExpr", "CXXReinterpretCastExpr", "CXXFunctionalCastExpr"):
+                    continue
+                tt = (x.get("t") or "").replace(" ", "")
+                if not tt.endswith("::slab_frame*") or not x.children:
+                    continue
+                op = x.children[0]
+                st = (std_unwrap(op).get("t") or op.get("t") or "").replace(" ", "")
+                if not st.endswith("::frame*"):
+                    continue            # (from an address or from void *: construction sites, judged by E.carving / E.frame-lookup)
+                if x.id not in f.positions():
+                    anc, hops = x, 0
+                    while anc is not None and anc.id not in f.positions() and hops < 10:
+                        anc, hops = f.parent(anc), hops + 1
+                else:
+                    anc = x
+                if anc is None:
+                    continue
+                n += 1
+                want = path(op)
+                ok = False
+                for c, t in flow.facts_at(f, anc.id):
+                    rel = flow.fact_relation(c, t)
+                    if rel is None:
+                        continue
+                    a, o, b = rel
+                    sides = [std_unwrap(a), std_unwrap(b)]
+                    tp = [path(s_) for s_ in sides]
+                    isslab = ["frame_type::slab" in canon(s_) for s_ in sides]
+                    for i in (0, 1):
+                        if tp[i] and tp[i][-1] == "type" and tp[i][:-1] == want and isslab[1 - i] and o == "==":
+                            ok = True
+                if not ok:
+                    bad.append((x.loc, "%s: %s is taken for a slab frame at %s without `type == slab` decided for it" % (
+                        f.name, canon(std_unwrap(op)).split("#")[0], x.loc.split("/")[-1]), f))
+        n_total += n
+        ctx.inst(rule, inst, not bad, bad[0][0] if bad else fns[0].loc,
+                 "; ".join(sorted({b[1] for b in bad})[:3]) if bad else "%d conversions, each under the type test" % n, bad[0][2] if bad else None)
+    if n_total < 4:
+        raise AnalysisBroken("anchor vanished: frame -> slab_frame conversions in slab_pool (found %d)" % n_total)
+
+
+def check_allocator_forwards(ctx, unit, rule="W.allocator-forwards"):
+    """slab_allocator is the face of the pool that containers use.  Each of its members hands its request to the pool member
+    of the same meaning on EVERY path: what a request means (a zero size frees, a null pointer allocates, a grown block is
+    unpoisoned) is decided in the pool, and a wrapper that answers some requests itself answers them differently."""
+    TABLE = {"allocate": ("allocate",), "free": ("free",), "deallocate": ("deallocate",), "reallocate": ("realloc",), "get_size": ("get_size",)}
+    ctx.rule(rule, "slab_allocator: allocate/free/deallocate/reallocate/get_size reach the pool member of the same meaning on every "
+             "path (the wrapper takes no decision of its own)", 4)
+    fs = [f for f in unit.functions if f.owner_cls == "frg::slab_allocator" and f.name in TABLE and f.blocks]
+    if len(fs) < 4:
+        raise AnalysisBroken("anchor vanished: members of slab_allocator (found %d)" % len(fs))
+    seen = set()
+    for f in fs:
+        key = (f.owner_clsqn, f.name)
+        if key in seen:
+            continue
+        seen.add(key)
+
+        def transfer(n, st, f=f):
+            if n.is_call() and n.callee and n.callee["n"] in TABLE[f.name] and "slab_pool" in (n.callee.get("cls") or n.callee.get("uq") or ""):
+                return [True]
+            if n.is_call() and n.callee and n.callee.get("cls") == "frg::slab_allocator" and {n.callee["n"], f.name} == {"free", "deallocate"}:
+                return [True]       # free/deallocate through one another: the sibling is held to the same rule
+            return [st]
+        _, ex = flow.run(f, [False], transfer, None)
+        ok = bool(ex) and all(ex)
+        ctx.inst(rule, "%s::%s" % (f.owner_clsqn, f.name), ok, f.loc,
+                 "every path reaches slab_pool::%s" % TABLE[f.name][0] if ok else
+                 "%s() returns on some path without having asked the pool (slab_pool::%s)" % (f.name, TABLE[f.name][0]), f)
